@@ -387,8 +387,13 @@ def independence(ctx, label, sym, hyps, hy_tab, fq):
             if same_construct and not canary_done and e2 is w1:
                 # vacuity guard: without "different iterations" the same access obviously meets itself — the hypotheses must allow that
                 canary_done.append(1)
-                cs0 = [c for c in cs if c is not cs[len(list(hyps)) + len(rel) + len(w1.guards) + len(g2) + len(extra) + 1]]
-                r0, _, be0 = intarith.check_sat_int(cs0, 60.0)      # wall-clock budget sized for a fully loaded machine (normally < 1 s)
+                # (the second iteration may coincide with the first, so it is enough that ONE iteration satisfies the hypotheses and its guards: the
+                # identical copy then meets it at the same index — a much smaller satisfiability query, robust under machine load)
+                cs0 = list(hyps) + rel + list(w1.guards)
+                cs0 += hy_tab.instances(cs0)
+                r0, _, be0 = intarith.check_sat_int(cs0, 60.0)
+                if r0 not in ("sat", "unsat"):
+                    r0, _, be0 = smt.check_sat(cs0, 120.0)
                 ctx._rec("canary", "%s.race-free canary (same iteration allowed: must be satisfiable)" % label,
                          vc.Verdict("refuted" if r0 == "sat" else ("discharged" if r0 == "unsat" else "undecided"), be0), fq)
             n += 1
